@@ -4,6 +4,7 @@ def b_Obstacle_create_node : CR.SrcW.Builder where
   kind := .list
   tag := ""
   xsd := "/commonRoad"
+  path := []
   parent := ""
   attrs := []
   gattrs := []
